@@ -207,8 +207,17 @@ def run_history(ops, mode, want_layer_lines=False):
     exact = mode == "exact"
     out = []
     engine, nodes, acc = None, None, None
+    other = None            # (engine, nodes, acc) of the engine that is not current (two engines alive at the same time)
     for op in ops:
-        if op[0] == "new":
+        if op[0] == "second-engine":
+            other = (engine, nodes, acc)
+            acc = dict(op[1])
+            src = eff_force_opts(acc) if exact else acc
+            engine = force_mod.Force({k: (conv(v, exact) if k != "algorithm" else v) for k, v in src.items()})
+            nodes = None
+        elif op[0] == "switch":
+            (engine, nodes, acc), other = other, (engine, nodes, acc)
+        elif op[0] == "new":
             acc = dict(op[1])
             src = eff_force_opts(acc) if exact else acc
             engine = force_mod.Force({k: (conv(v, exact) if k != "algorithm" else v) for k, v in src.items()})
@@ -237,6 +246,8 @@ def _eopts(acc):
 
 
 def run_ehist(ops):
+    if any(op[0] in ("second-engine", "switch") for op in ops):
+        raise ValueError("two engines alive at the same time are not expressible in the ehist protocol")
     """the history on real Force / Node objects in exact arithmetic; returns the `ehist` driver line: the operations and, after every
     compute, what getLayers() and the node objects report (data position, width, stub flag, layerIndex, currentPos, payload)"""
     _state["exact"] = True
